@@ -309,14 +309,139 @@ fn cli_batch(r: &mut Report, cli: &str, frames_in: &[Vec<u8>], shard: u64) {
                 r.violation(&format!("C07:cli:df-icao24:DF{df}"), format!("decode1090 shows df={got_df:?} icao24={got_icao:?} for {} (DF{df}, {addr:06x})", hexs(fr)), rp(*k));
             }
         }
+        // positions are only present when decoded (None is skipped), so a null there is a non-finite number
+        for key in ["latitude", "longitude"] {
+            if tree.get(key).map(|v| v.is_null()).unwrap_or(false) {
+                r.violation(&format!("C07:cli:non-finite:{key}"), format!("decode1090 record of {} has {key} = null (a non-finite number): {}", hexs(fr), &l[..l.len().min(240)]), rp(*k));
+            }
+        }
+        if tree.get("latitude").and_then(|v| v.as_f64()).is_some() {
+            r.class("cli:record-with-decoded-position");
+        }
         r.class("cli:record-ok");
     }
 }
 
+fn positioned_case(r: &mut Report, frames: &[Vec<u8>], stamps: &[f64], reference: Option<[f64; 2]>, cls: &str, what: &str) {
+    use rs1090::decode::cpr::{decode_positions, Position};
+    let mut v: Vec<TimedMessage> = vec![];
+    for (f, ts) in frames.iter().zip(stamps) {
+        if let Ok(Ok(m)) = guarded(|| Message::try_from(f.as_slice())) {
+            v.push(TimedMessage { timestamp: *ts, frame: f.clone(), message: Some(m), metadata: vec![], decode_time: None });
+        }
+    }
+    {
+        let rp = json!({"origin": "positioned", "frames": v.iter().map(|t| hexs(&t.frame)).collect::<Vec<_>>(), "reference": reference.map(|p| p.to_vec()), "timestamps": stamps, "class": cls, "frame": v.first().map(|t| hexs(&t.frame))});
+        if let Err((loc, m)) = guarded(|| decode_positions(&mut v, reference.map(|p| Position { latitude: p[0], longitude: p[1] }), &None)) {
+            r.violation(&format!("C07:panic:decode_positions:{}", short_loc(&loc)), format!("decode_positions panicked: {}", msg_class(&m)), rp.clone());
+            return;
+        }
+        for t in &v {
+            r.evaluations += 1;
+            let text = match guarded(|| serde_json::to_string(t)) {
+                Ok(Ok(x)) => x,
+                Ok(Err(e)) => {
+                    r.violation("C07:positioned:serialize-error", format!("a positioned record of {} fails to serialise: {e}", hexs(&t.frame)), rp.clone());
+                    continue;
+                }
+                Err((loc, m)) => {
+                    r.violation(&format!("C07:panic:serialize:{}", short_loc(&loc)), format!("serialising a positioned record panicked: {}", msg_class(&m)), rp.clone());
+                    continue;
+                }
+            };
+            let tree = match sjson::parse(&text) {
+                Ok(x) => x,
+                Err(e) => {
+                    r.violation("C07:positioned:malformed", format!("positioned record of {} rejected by a strict parser: {e}", hexs(&t.frame)), rp.clone());
+                    continue;
+                }
+            };
+            let mut ok = true;
+            if let Ok(rec) = recorder::record(t) {
+                let f = recorder::flatten(&rec);
+                if !f.nonfinite.is_empty() {
+                    ok = false;
+                    r.violation(&format!("C07:positioned:non-finite:{cls}"), format!("record of {} after decode_positions ({what}) carries non-finite numbers {:?}: {}", hexs(&t.frame), f.nonfinite, &text[..text.len().min(260)]), rp.clone());
+                }
+                if !f.dup_keys.is_empty() {
+                    ok = false;
+                    r.violation("C07:positioned:duplicate-key", format!("record of {}: duplicate keys {:?}", hexs(&t.frame), f.dup_keys), rp.clone());
+                }
+            }
+            for key in ["latitude", "longitude"] {
+                if tree.get(key).map(|x| x.is_null()).unwrap_or(false) && ok {
+                    ok = false;
+                    r.violation(&format!("C07:positioned:non-finite:{cls}"), format!("record of {} has {key} = null", hexs(&t.frame)), rp.clone());
+                }
+            }
+            if ok {
+                r.class(&format!("positioned:{cls}"));
+                if tree.get("latitude").and_then(|x| x.as_f64()).is_some() {
+                    r.class(&format!("positioned:{cls}:with-decoded-position"));
+                    r.distinct(fnv(&t.frame) ^ 0x9051);
+                }
+            }
+        }
+    }
+}
+
+/// Messages as jet1090 and decode1090 serialise them: after decode_positions has filled in the positions. Short
+/// histories of one aircraft (both parities, both orders, within the pairing window) at the latitudes where the CPR
+/// arithmetic degenerates (poles, 87 degrees, NL transitions, equator) and elsewhere; returns the frames for the
+/// decode1090 pass.
+fn positioned(r: &mut Report, rng: &mut Rng, n: u64) -> Vec<Vec<u8>> {
+    use crate::oracle::geo;
+    let tr = geo::transitions();
+    let mut out = vec![];
+    for _ in 0..n {
+        let (lat, cls) = match rng.below(10) {
+            0 => (*rng.pick(&[90.0, -90.0, 89.999, -89.999]), "pole"),
+            1 => (rng.uni(87.0, 90.0) * if rng.chance(0.5) { 1.0 } else { -1.0 }, "polar-cap(>87)"),
+            2 => (*rng.pick(&[87.0, -87.0, 86.99999, -86.99999, 87.00001, -87.00001]), "87-degrees"),
+            3 => {
+                let t = *rng.pick(&tr);
+                ((t + rng.uni(-0.002, 0.002)) * if rng.chance(0.5) { 1.0 } else { -1.0 }, "nl-transition")
+            }
+            4 => (rng.uni(-0.01, 0.01), "equator"),
+            _ => (rng.uni(-86.0, 86.0), "mid-latitude"),
+        };
+        let lat = lat.clamp(-90.0, 90.0);
+        let lon = match rng.below(6) {
+            0 => *rng.pick(&[0.0, 180.0, -180.0, 179.9999, -179.9999, 90.0, -90.0]),
+            _ => rng.uni(-180.0, 180.0),
+        };
+        let surface = rng.chance(0.25) && lat.abs() < 89.0;
+        let icao = rng.below(1 << 24) as u32;
+        let first_odd = rng.chance(0.5);
+        let k = rng.range(2, 5) as usize;
+        let mut frames = vec![];
+        let mut stamps = vec![];
+        let mut ts = 1_700_000_000.0;
+        for i in 0..k {
+            let odd = first_odd ^ (i % 2 == 1);
+            // a slow aircraft: the position barely moves between reports
+            frames.push(super::c06::build_frame(icao, (lat + i as f64 * 1e-5).clamp(-90.0, 90.0), lon, odd, surface, rng));
+            stamps.push(ts);
+            ts += rng.uni(0.2, 3.0);
+        }
+        let reference = if surface || rng.chance(0.3) { Some([(lat + rng.uni(-0.3, 0.3)).clamp(-90.0, 90.0), lon]) } else { None };
+        positioned_case(r, &frames, &stamps, reference, cls, &format!("true position {lat:.6},{lon:.6}, {}", if surface { "surface" } else { "airborne" }));
+        out.extend(frames);
+    }
+    out
+}
+
 pub fn run(a: &Args, r: &mut Report) {
-    r.rule = "shape space enumerated completely: DF 0..31 x (DF18: CF 0..7) x TC 0..31 x 3-bit subtype x (TC31: version 0..7) and DF20/21 x register hypothesis (x BDS 3,0 threat type 0..3), each shape filled N times with boundary-biased bits (N = 6 quick, 400 thorough); plus random structured frames. distinct_nontrivial = distinct ACCEPTED frames whose JSON passed every check".into();
+    r.rule = "shape space enumerated completely: DF 0..31 x (DF18: CF 0..7) x TC 0..31 x 3-bit subtype x (TC31: version 0..7) and DF20/21 x register hypothesis (x BDS 3,0 threat type 0..3), each shape filled N times with boundary-biased bits (N = 6 quick, 400 thorough); plus random structured frames; plus the positioned family: 2-5 position reports of one aircraft (both parities, either first, 0.2-3 s apart, airborne and surface, with and without a reference) at poles, polar caps, 87 degrees, NL transitions, the equator and mid latitudes, serialised after decode_positions has filled in the position (as jet1090 and decode1090 do) and also sent through the decode1090 executable. distinct_nontrivial = distinct ACCEPTED frames whose JSON passed every check".into();
     if let Some(p) = &a.replay {
         let v: serde_json::Value = serde_json::from_str(&std::fs::read_to_string(p).unwrap()).unwrap();
+        if let Some(fs) = v["replay"]["frames"].as_array() {
+            let frames: Vec<Vec<u8>> = fs.iter().filter_map(|x| hex::decode(x.as_str()?).ok()).collect();
+            let stamps: Vec<f64> = v["replay"]["timestamps"].as_array().map(|t| t.iter().filter_map(|x| x.as_f64()).collect()).unwrap_or_default();
+            let reference = v["replay"]["reference"].as_array().and_then(|p| Some([p.first()?.as_f64()?, p.get(1)?.as_f64()?]));
+            positioned_case(r, &frames, &stamps, reference, v["replay"]["class"].as_str().unwrap_or("replay"), "replay");
+            return;
+        }
         check_frame(r, &hex::decode(v["replay"]["frame"].as_str().unwrap()).unwrap(), "replay");
         return;
     }
@@ -347,7 +472,11 @@ pub fn run(a: &Args, r: &mut Report) {
             accepted_shapes += 1;
         }
     }
+    let pos_frames = positioned(r, &mut rng, a.budget(40_000, 4_000_000));
     if let Some(cli) = &cli {
+        // histories of one aircraft, in order, one second apart: the tool pairs them and prints decoded positions
+        let keep = a.budget(8_000, 400_000) as usize;
+        cli_frames.extend(pos_frames.into_iter().take(keep));
         for _ in 0..a.budget(20_000, 1_000_000) {
             let df = *rng.pick(&[17u8, 18, 20, 21, 4, 5, 0, 16, 11, 19, 24]);
             cli_frames.push(common::structured(&mut rng, df));
@@ -373,6 +502,10 @@ pub fn run(a: &Args, r: &mut Report) {
         }
         if cli.is_some() {
             mand.push("cli:record-ok".into());
+            mand.push("cli:record-with-decoded-position".into());
+        }
+        for c in ["pole", "polar-cap(>87)", "87-degrees", "nl-transition", "equator", "mid-latitude"] {
+            mand.push(format!("positioned:{c}:with-decoded-position"));
         }
         r.extra.insert("mandatory".into(), json!(mand));
     }
